@@ -723,6 +723,7 @@ func c18(r *core.Run) {
 		})
 	}
 
+	c18R9(r) // D2/K1/no-result-without-return/flightGroup (c18_r9.go)
 	r.Check("D2/K8/results-from-the-shared-call/flightGroup", "every caller of one flight receives that flight's result: in Do/DoEx each returned value of interface type and each returned error is a load of the corresponding field (by type: the interface-typed and the error-typed field) of the call object the creator handed back, on the sharing path as well as after the own execution", func(o *core.O) {
 		tf := "flightGroup.calls"
 		fns := c18GroupFns(p, inPkg, "flightGroup")
